@@ -504,46 +504,68 @@ class Engine:
 
     def len_equalities(self, body, bb):
         """[(A, B)] collection terms with len(A) == len(B) established on every path to bb: the block is dominated by the edge of a
-        switch on `len(A) == len(B)` (or `!=`) taken when the lengths are equal"""
+        switch on `len(A) == len(B)` (or `!=`) taken when the lengths are equal.  The switches are found on the MIR itself (a
+        comparison of the results of two `len` calls), and only the arguments of those calls are evaluated, so that asking in the
+        middle of another evaluation cannot meet a half-computed loop variable."""
         key = ('leq', body.key)
         tab = self._memo.get(key)
+        ix = self.bx(body)
+        cfg = ix.cfg
         if tab is None:
             tab = []
-            self._memo[key] = tab          # re-entrant reads see the (still empty) table
-            cfg = self.bx(body).cfg
+
+            def single_def(l):
+                ds = ix.defs.get(l, [])
+                return ds[0] if len(ds) == 1 else None
+
+            def len_call(op):
+                # operand -> (block, argument operand) of the `len` call that defines it (through plain moves)
+                for _ in range(4):
+                    if op.get('k') not in ('copy', 'move') or op['place']['p']:
+                        return None
+                    d = single_def(op['place']['l'])
+                    if d is None:
+                        return None
+                    if d[2] == 'call':
+                        t = d[3]
+                        if callee_decl(t).split('::')[-1] == 'len' and len(t['args']) == 1:
+                            return (d[0], t['args'][0])
+                        return None
+                    rv = d[3]['rv']
+                    if rv['k'] == 'use':
+                        op = rv['op']
+                        continue
+                    return None
+                return None
             for b in body.blocks:
                 t = b['term']
                 if b['cleanup'] or t['k'] != 'switch' or b['i'] not in cfg.reach_set:
                     continue
-                try:
-                    c = self.operand(body, b['i'], TERM_IDX, t['discr'])
-                except Exception:
+                d = t['discr']
+                if d.get('k') not in ('copy', 'move') or d['place']['p']:
                     continue
-                if c.tag != 'binop' or c[1] not in ('Eq', 'Ne'):
+                dd = single_def(d['place']['l'])
+                if dd is None or dd[2] != 'assign' or dd[3]['rv']['k'] != 'binop' or dd[3]['rv'].get('op') not in ('Eq', 'Ne'):
                     continue
-                sides = []
-                for x in (c[2], c[3]):
-                    while x.tag == 'cast':
-                        x = x[2]
-                    if x.tag == 'call' and x[1].split('::')[-1] == 'len' and len(x[2]) == 1:
-                        sides.append(x[2][0])
-                if len(sides) != 2:
+                rv = dd[3]['rv']
+                la, lb = len_call(rv['a']), len_call(rv['b'])
+                if la is None or lb is None:
                     continue
                 arms = {str(v): tgt for v, tgt in t['arms']}
-                # the edge on which the comparison is true (non-zero) / false (zero)
                 true_tgt = t['otherwise'] if '0' in arms else None
                 false_tgt = arms.get('0')
-                eq_tgt = true_tgt if c[1] == 'Eq' else false_tgt
+                eq_tgt = true_tgt if rv['op'] == 'Eq' else false_tgt
                 if eq_tgt is not None:
-                    tab.append((b['i'], eq_tgt, sides[0], sides[1]))
-        if not tab:
-            return ()
-        cfg = self.bx(body).cfg
+                    tab.append((b['i'], eq_tgt, la, lb))
+            self._memo[key] = tab
         out = []
-        for (sw, tgt, a, b_) in tab:
+        for (sw, tgt, la, lb) in tab:
             others = [x for x in cfg.pred.get(tgt, []) if x != sw and not cfg.dominates(tgt, x)]
             if not others and cfg.dominates(tgt, bb):
-                out.append((a, b_))
+                try:
+                    out.append((self.operand(body, la[0], TERM_IDX, la[1]), self.operand(body, lb[0], TERM_IDX, lb[1])))
+                except Exception:
+                    continue
         return tuple(out)
 
     def bx(self, body):
@@ -647,7 +669,7 @@ class Engine:
                 else:
                     t = project_variant(t, v)
             elif k == 'index':
-                t = mk_elemat(t, self.local(body, bb, idx, e['l'], depth + 1), self.len_equalities(body, bb))
+                t = mk_elemat(t, self.local(body, bb, idx, e['l'], depth + 1), lambda: self.len_equalities(body, bb))
             elif k == 'cindex':
                 t = mk_elemat(t, T('const', -e['off'] - 1 if e['from_end'] else e['off']))
             elif k == 'subslice':
@@ -915,7 +937,9 @@ class Engine:
         if decl in ELEM_NEXT:
             return mk_elem(self, args[0])
         if decl in ELEM_AT and len(args) >= 2:
-            return mk_elemat(args[0], args[1])
+            body_ = self.facts.by_key.get(site[0][0]) if site and len(site[0]) == 2 else None
+            r_ = mk_elemat(args[0], args[1], (lambda: self.len_equalities(body_, site[0][1])) if body_ is not None else ())
+            return r_
         if decl in ELEM_NAMED:
             return mk_elemat(args[0], T('const', ELEM_NAMED[decl]))
         if decl in PAIR and len(args) == 2:
@@ -1335,7 +1359,7 @@ def mk_elemat(coll, i, eqs=()):
             ok, skip = _view_component(view, coll)
             if not ok:
                 # indexed with the counter of a walk over another collection that a dominating guard makes equally long
-                for a, b in eqs:
+                for a, b in (eqs() if callable(eqs) else eqs):
                     for x, y in ((a, b), (b, a)):
                         if _same_collection(x, coll) and _view_component(view, y)[0]:
                             ok, skip = True, _view_component(view, y)[1]
